@@ -3,3 +3,7 @@ ignore_na / element_wise / n_failure_cases act only in the step that documents t
 from contracts.C01_check_pipeline import CONTRACTS as _PIPELINE
 
 CONTRACTS = list(_PIPELINE)
+
+from contracts.C08_polars_check_pipeline import CONTRACTS as _POLARS_PIPELINE  # noqa: E402  (the polars twin of the pipeline)
+
+CONTRACTS += list(_POLARS_PIPELINE)
